@@ -321,6 +321,8 @@ func (c LockCfg) spec() world.GenesisSpec {
 // ---- the runtime world ----
 
 type lockWorld struct {
+	hook     func(blk world.Block, txs [][]byte, res *world.StepResult) *Failure
+	hookFail *Failure
 	sim   *world.Sim
 	m     *lockModel
 	obs   *lockingtypes.GenesisState // latest export
@@ -546,6 +548,12 @@ func (w *lockWorld) step(bi int, lb LockBlock) error {
 	w.resp = res
 	if err != nil {
 		return err
+	}
+	if w.hook != nil {
+		if fl := w.hook(blk, txs, res); fl != nil {
+			w.hookFail = fl
+			return fmt.Errorf("hook: %s", fl.Detail)
+		}
 	}
 	w.ethOK = res.Resp.TxResults[0].Code == 0
 	// system transactions of the payload
